@@ -37,15 +37,24 @@ def covered : Site → Bool
 
 /-! ## values -/
 
+/-- not the nil path (the marker of `pathbegin`) -/
+def notNullV : V → Bool
+  | .jv .null => false
+  | _ => true
+
+theorem notNullV_ne {p : V} (h : notNullV p = true) : p ≠ .jv .null := by
+  intro heq; subst heq; simp [notNullV] at h
+
 mutual
-/-- closures point at a checked entry and at a slot below `n`; `[]pathValue`s are non-empty -/
+/-- closures point at a checked entry and at a slot below `n`; `[]pathValue`s are non-empty and
+    their paths are not nil -/
 def vok (S : SC) (n : Int) : V → Bool
   | .clo pc idx => S.target pc && decide (idx < n)
   | .pvs xs => !xs.isEmpty && pok S n xs
   | _ => true
 def pok (S : SC) (n : Int) : List (V × V) → Bool
   | [] => true
-  | pv :: xs => vok S n pv.2 && pok S n xs
+  | pv :: xs => vok S n pv.2 && notNullV pv.1 && pok S n xs
 end
 
 def eok (S : SC) (n : Int) : Err → Bool
@@ -72,7 +81,7 @@ theorem pok_mono (S : SC) {n m : Int} (hnm : n ≤ m) : ∀ (xs : List (V × V))
   | [], _ => rfl
   | pv :: xs, h => by
     simp only [pok, Bool.and_eq_true] at h ⊢
-    exact ⟨vok_mono S hnm pv.2 h.1, pok_mono S hnm xs h.2⟩
+    exact ⟨⟨vok_mono S hnm pv.2 h.1.1, h.1.2⟩, pok_mono S hnm xs h.2⟩
 end
 
 theorem eok_mono (S : SC) {n m : Int} (hnm : n ≤ m) : ∀ (er : Err), eok S n er = true → eok S m er = true
